@@ -1,6 +1,421 @@
-//! C10 — not implemented yet.
+//! C10 — A failing fragment fails the whole query (level: fault enumeration).
+//!
+//! Per generated table set + cluster (2..5 participants, ≥1 remote) one
+//! scatter-profile and one gather-profile statement. For each statement a
+//! fault-free distributed run is recorded through the in-process transport
+//! (every remote exchange with its real `/fragment` reply bytes). Then EVERY
+//! remote exchange × EVERY fault kind is replayed, alone and in generated pairs:
+//!   transport Err · HTTP 500 / 503 · empty body · truncation at EVERY Arrow IPC
+//!   message boundary (after the schema message, after each batch, before the
+//!   end-of-stream marker) and at sampled interior offsets (incl. 1 byte and
+//!   len-1) · single-byte corruption at sampled offsets · dropped end-of-stream
+//!   marker · wrong / missing `x-qe-rows` · split digest altered in flight.
+//! Oracle: the query returns `Err`, or exactly the fault-free answer (label
+//! `masked`); an `Ok` that differs from the fault-free answer is a violation.
 use super::Property;
+use crate::data::*;
+use crate::runner::*;
+use crate::sqlast::*;
+use crate::sqlgen::*;
+use proptest::prelude::*;
+use serde::{Deserialize, Serialize};
+
+use super::c09::cluster::*;
+
+#[derive(Clone, Debug, Serialize, Deserialize)]
+pub struct FaultCase {
+    pub tables: Vec<PqTable>,
+    pub cluster: ClusterSpec,
+    pub statements: Vec<Query>,
+    /// selectors of interior truncation offsets (mapped monotonically into the body)
+    pub interior: Vec<u16>,
+    /// selectors of corruption offsets and the xor mask
+    pub corrupt: Vec<(u16, u8)>,
+    /// selectors of fault pairs (indices into the enumerated single faults)
+    pub pairs: Vec<(u16, u16)>,
+}
+
+fn scatter_profile() -> Profile {
+    Profile::from_spec("minimal+logic+group_by+having+order_by+joins2+explicit_joins+cross_joins+comma_joins")
+}
+fn gather_profile() -> Profile {
+    let mut p = Profile::from_spec("minimal+logic+group_by+distinct+count_distinct+order_by+joins2+explicit_joins+outer_joins+set_ops+derived+ctes+subqueries");
+    p.max_from = 2;
+    p
+}
+
+/// Make sure the statement cannot scatter: a plain block becomes DISTINCT, a
+/// grouped one gets COUNT(DISTINCT …) — both have no exact partial/final split.
+fn force_gather(q: &mut Query) {
+    if !q.with.is_empty() {
+        return;
+    }
+    if let SetExpr::Select(s) = &mut q.body {
+        if s.group == Group::None && !s.items.iter().any(|i| matches!(i, Item::Expr(e, _) if e.contains_agg())) {
+            s.distinct = true;
+        } else if let Some(Item::Expr(e, _)) = s.items.iter().find(|i| matches!(i, Item::Expr(Expr::Col { .. }, _))).cloned() {
+            s.items.push(Item::Expr(Expr::Agg { f: AggF::Count, arg: Some(Box::new(e)), distinct: true }, Some("cd9".into())));
+        }
+    }
+}
+
+fn case_strategy(tier: Tier) -> BoxedStrategy<FaultCase> {
+    let max_rows = tier.pick(12, 30);
+    (
+        super::c09::tables_with_layout(max_rows, 1, 2),
+        (2usize..=tier.pick(4, 6), any::<u16>(), proptest::collection::vec(any::<bool>(), 8)),
+        proptest::collection::vec(any::<u16>(), 0..120),
+        proptest::collection::vec(any::<u16>(), 0..120),
+        proptest::collection::vec(any::<u16>(), tier.pick(3, 8)),
+        proptest::collection::vec((any::<u16>(), any::<u8>()), tier.pick(4, 12)),
+        proptest::collection::vec((any::<u16>(), any::<u16>()), tier.pick(4, 16)),
+    )
+        .prop_map(|(tables, (nodes, sel, copy), tape1, tape2, interior, corrupt, pairs)| {
+            let plain: Vec<Table> = tables.iter().map(|t| t.table.clone()).collect();
+            let cat = Catalog::of(&plain);
+            let sp = scatter_profile();
+            let gp = gather_profile();
+            let (s, _) = Gen::new(tape1, &sp).query(&cat, 0);
+            let (mut g, _) = Gen::new(tape2, &gp).query(&cat, 1);
+            force_gather(&mut g);
+            FaultCase {
+                tables,
+                cluster: ClusterSpec { nodes, self_pos: pick_idx(sel, nodes), copy: copy.into_iter().take(nodes).collect() },
+                statements: vec![s, g],
+                interior,
+                corrupt,
+                pairs,
+            }
+        })
+        .boxed()
+}
+
+/// One enumerated fault instance.
+#[derive(Clone, Debug)]
+struct Instance {
+    entries: Vec<ScriptEntry>,
+    /// e.g. "truncate@boundary", "truncate@interior", "corrupt"
+    class: String,
+    /// the targeted shard carried ≥1 row in the fault-free run
+    carried_rows: bool,
+}
+
+fn enumerate(exchanges: &[Exchange], c: &FaultCase) -> Vec<Instance> {
+    let mut out = vec![];
+    for e in exchanges {
+        if e.status != 200 {
+            continue;
+        }
+        let mk = |f: Fault, class: &str| Instance {
+            entries: vec![ScriptEntry { address: e.address.clone(), table: e.table.clone(), fault: f }],
+            class: class.to_string(),
+            carried_rows: e.rows > 0,
+        };
+        out.push(mk(Fault::TransportErr, "transport_err"));
+        out.push(mk(Fault::HttpStatus(500), "http_status"));
+        out.push(mk(Fault::HttpStatus(503), "http_status"));
+        out.push(mk(Fault::EmptyBody, "empty_body"));
+        out.push(mk(Fault::DropEos, "drop_eos"));
+        out.push(mk(Fault::RowsHeader(1), "rows_header"));
+        out.push(mk(Fault::RowsHeader(-1), "rows_header"));
+        out.push(mk(Fault::RowsHeaderMissing, "rows_header_missing"));
+        out.push(mk(Fault::DigestAltered, "digest_altered"));
+        let len = e.body.len();
+        let mut boundaries: Vec<usize> = vec![];
+        if let Ok(msgs) = ipc_messages(&e.body) {
+            for m in &msgs {
+                if m.end < len {
+                    boundaries.push(m.end);
+                }
+                // the metadata/body seam of a batch message is a boundary of its own kind
+                if m.kind == "batch" && m.body_start < len && m.body_start != m.end {
+                    out.push(mk(Fault::TruncateAt(m.body_start), "truncate@metadata_body_seam"));
+                }
+            }
+        }
+        let mut prefix_cuts: Vec<usize> = vec![];
+        for b in &boundaries {
+            out.push(mk(Fault::TruncateAt(*b), "truncate@message_boundary"));
+            // inside the 8-byte prefix (continuation marker + length) of the next message
+            for k in [1usize, 3, 4, 5, 7] {
+                if b + k < len && !boundaries.contains(&(b + k)) {
+                    out.push(mk(Fault::TruncateAt(b + k), "truncate@message_prefix"));
+                    prefix_cuts.push(b + k);
+                }
+            }
+        }
+        if len > 1 {
+            let mut offs: Vec<usize> = vec![1, 4, 8, len - 1];
+            for s in &c.interior {
+                offs.push(pick_idx(*s, len));
+            }
+            offs.sort();
+            offs.dedup();
+            for o in offs {
+                if o > 0 && o < len && !boundaries.contains(&o) && !prefix_cuts.contains(&o) && !boundaries.iter().any(|b| o > *b && o < b + 8) {
+                    out.push(mk(Fault::TruncateAt(o), "truncate@interior"));
+                }
+            }
+            for (s, x) in &c.corrupt {
+                out.push(mk(Fault::CorruptAt { offset: pick_idx(*s, len), xor: *x }, "corrupt"));
+            }
+        }
+    }
+    // generated pairs of single faults on two different exchanges (or the same one)
+    let singles = out.len();
+    if singles >= 2 {
+        for (a, b) in &c.pairs {
+            let (i, j) = (pick_idx(*a, singles), pick_idx(*b, singles));
+            if i == j {
+                continue;
+            }
+            let mut entries = out[i].entries.clone();
+            entries.extend(out[j].entries.clone());
+            out.push(Instance { entries, class: format!("pair:{}+{}", out[i].class, out[j].class), carried_rows: out[i].carried_rows || out[j].carried_rows });
+        }
+    }
+    out
+}
+
+/// Known-finding classes of C10 (precise signatures).
+fn classify(class: &str) -> Option<&'static str> {
+    // an Ok answer that lost rows after a cut exactly at an IPC message boundary
+    // (alone, or paired with a fault that is itself harmless or detected)
+    let parts: Vec<&str> = class.strip_prefix("pair:").map(|p| p.split('+').collect()).unwrap_or_else(|| vec![class]);
+    // every single fault is also enumerated alone, so a new defect hidden behind a
+    // pair that contains a known-class fault still shows up unclassified there
+    if parts.iter().any(|p| *p == "truncate@message_boundary" || *p == "truncate@message_prefix") {
+        return Some("ipc-truncation-at-message-boundary");
+    }
+    if parts.iter().any(|p| *p == "corrupt") {
+        return Some("fragment-payload-corruption-undetected");
+    }
+    None
+}
+
+/// Helper check (no generated cases): decode one reply body. Run in a CHILD process by
+/// `decode_kills_process` because a corrupt length field makes the Arrow stream reader
+/// allocate the declared size, which aborts the process instead of returning an error.
+#[derive(Clone, Debug, Serialize, Deserialize)]
+pub struct DecodeCase {
+    pub body_hex: String,
+}
+pub struct DecodeProbe;
+impl Check for DecodeProbe {
+    type Case = DecodeCase;
+    fn name(&self) -> &'static str {
+        "ipc_decode_probe"
+    }
+    fn rule(&self) -> &'static str {
+        "helper executed in a child process only"
+    }
+    fn cases(&self, _t: Tier) -> u32 {
+        0
+    }
+    fn strategy(&self, _t: Tier) -> BoxedStrategy<DecodeCase> {
+        Just(DecodeCase { body_hex: String::new() }).boxed()
+    }
+    fn test(&self, c: &DecodeCase, _obs: &mut Obs) -> Verdict {
+        let bytes: Vec<u8> = (0..c.body_hex.len() / 2).filter_map(|i| u8::from_str_radix(&c.body_hex[2 * i..2 * i + 2], 16).ok()).collect();
+        let _ = query_engine::distributed::coordinator::decode_ipc(&bytes);
+        Verdict::Pass
+    }
+}
+
+/// Some(true): decoding `body` killed the child process (signal); Some(false): it returned.
+fn decode_kills_process(body: &[u8]) -> Option<bool> {
+    let dir = TempDir::new("c10probe");
+    let file = dir.path().join("probe.json");
+    let hex: String = body.iter().map(|b| format!("{:02x}", b)).collect();
+    let doc = serde_json::json!({"property": "C10", "check": "ipc_decode_probe", "expect": "pass", "case": {"body_hex": hex}});
+    std::fs::write(&file, doc.to_string()).ok()?;
+    let exe = std::env::current_exe().ok()?;
+    let out = std::process::Command::new(exe).arg("C10").arg("--replay").arg(&file).stdout(std::process::Stdio::null()).stderr(std::process::Stdio::null()).status().ok()?;
+    match out.code() {
+        Some(0) => Some(false),
+        None => Some(true),
+        Some(134) => Some(true),
+        _ => None,
+    }
+}
+
+pub struct FaultEnumeration;
+
+impl Check for FaultEnumeration {
+    type Case = FaultCase;
+    fn name(&self) -> &'static str {
+        "fragment_faults"
+    }
+    fn rule(&self) -> &'static str {
+        "at least one enumerated fault hit a remote shard whose fault-free reply carried >=1 row (labels count every fault instance by kind and outcome)"
+    }
+    fn cases(&self, tier: Tier) -> u32 {
+        tier.pick(30, 1500)
+    }
+    fn max_shrink_iters(&self) -> u32 {
+        // one evaluation replays ~100 distributed runs: keep shrinking short
+        24
+    }
+    fn strategy(&self, tier: Tier) -> BoxedStrategy<FaultCase> {
+        case_strategy(tier)
+    }
+    fn test(&self, c: &FaultCase, obs: &mut Obs) -> Verdict {
+        let cl = match Cluster::build("c10", &c.tables, &c.cluster) {
+            Ok(cl) => cl,
+            Err(e) => return Verdict::Discard(format!("cluster:{}", crate::sqlcheck::short_err(&e))),
+        };
+        // one message per known class; the rarest class names the verdict
+        let mut known_by: std::collections::BTreeMap<&'static str, String> = Default::default();
+        let mut known: Option<(String, String)> = None;
+        let mut unknown: Option<String> = None;
+        let mut n_unknown = 0usize;
+        let mut n_known = 0usize;
+        let mut instances = 0usize;
+        for q in &c.statements {
+            let sql = q.sql();
+            let shape = planned_shape(&cl.base, &sql).unwrap_or("unplanned");
+            let tr0 = cl.transport(vec![]);
+            let base_rows = match run_any_distributed(&cl, &sql, &tr0) {
+                DistOutcome::Ok(d) => batches_to_rows(&d.result.batches),
+                DistOutcome::NotImplemented(_) => {
+                    obs.label(format!("fault_free:{}:refused", shape));
+                    continue;
+                }
+                DistOutcome::Err(e) => {
+                    obs.label(format!("fault_free:{}:error:{}", shape, crate::sqlcheck::short_err(&e)));
+                    continue;
+                }
+                DistOutcome::Panic(_) => {
+                    obs.label(format!("fault_free:{}:panic", shape));
+                    continue;
+                }
+            };
+            let exchanges = tr0.exchanges();
+            obs.label(format!("fault_free:{}:ok", shape));
+            if exchanges.is_empty() {
+                obs.label("no_remote_exchange");
+                continue;
+            }
+            for inst in enumerate(&exchanges, c) {
+                instances += 1;
+                let kind = if inst.class.starts_with("pair:") { "pair" } else { inst.class.as_str() };
+                // pre-screen corrupted replies: a corrupt *length* makes the reader allocate the
+                // declared size; beyond what can be allocated that aborts the process. Such a
+                // reply is decoded in a child process first.
+                let mut killed = false;
+                if inst.class.contains("corrupt") {
+                    for e in &exchanges {
+                        let mut body = e.body.clone();
+                        let mut touched = false;
+                        for s in inst.entries.iter().filter(|s| s.address == e.address && s.table == e.table) {
+                            apply_body_fault(&mut body, &s.fault);
+                            touched = true;
+                        }
+                        if touched && declared_overrun(&body) > (256 << 20) {
+                            obs.label("corrupt_length_field_prescreened_in_child");
+                            match decode_kills_process(&body) {
+                                Some(false) => {}
+                                Some(true) => killed = true,
+                                None => {
+                                    obs.label("child_probe_inconclusive");
+                                    killed = true;
+                                }
+                            }
+                        }
+                    }
+                }
+                if killed {
+                    n_known += 1;
+                    obs.label(format!("fault:{}:PROCESS_ABORT", kind));
+                    if known.is_none() {
+                        known = Some((
+                            "ipc-corrupt-length-aborts-process".to_string(),
+                            format!("fault {:?}: decode_ipc on the corrupted reply killed the (child) process — the Arrow stream reader allocates the body length the corrupted message declares\n sql: {}", inst.entries, sql),
+                        ));
+                    }
+                    continue;
+                }
+                let tr = cl.transport(inst.entries.clone());
+                let outcome = match run_any_distributed(&cl, &sql, &tr) {
+                    DistOutcome::Err(_) | DistOutcome::NotImplemented(_) => "error",
+                    DistOutcome::Panic(p) => {
+                        // not an answer; C29 owns panics. Recorded.
+                        obs.label(format!("panic:{}", crate::sqlcheck::short_err(&p)));
+                        "panic"
+                    }
+                    DistOutcome::Ok(d) => {
+                        let rows = batches_to_rows(&d.result.batches);
+                        if multiset_eq(&rows, &base_rows, 1e-12) {
+                            "masked"
+                        } else {
+                            let msg = format!(
+                                "fault {:?} ({}) on a shard {} → the query returned Ok with an answer that differs from the fault-free one\n sql: {}\n shape: {}\n cluster: {:?}\n fault-free ({} rows):\n{} under fault ({} rows):\n{} exchanges: {}\n tables: {}",
+                                inst.entries,
+                                inst.class,
+                                if inst.carried_rows { "that carried rows" } else { "that carried no rows" },
+                                sql,
+                                shape,
+                                c.cluster.normalized(),
+                                base_rows.len(),
+                                fmt_rows(&base_rows, 20),
+                                rows.len(),
+                                fmt_rows(&rows, 20),
+                                exchanges.iter().map(|e| format!("[{} {} shard {} rows {} body {}B]", e.address, e.table, e.shard_index, e.rows, e.body.len())).collect::<Vec<_>>().join(" "),
+                                crate::sqlcheck::fmt_tables(&c.tables.iter().map(|t| t.table.clone()).collect::<Vec<_>>())
+                            );
+                            match classify(&inst.class) {
+                                Some(id) => {
+                                    n_known += 1;
+                                    known_by.entry(id).or_insert(msg);
+                                }
+                                None => {
+                                    n_unknown += 1;
+                                    if unknown.is_none() {
+                                        unknown = Some(msg);
+                                    }
+                                }
+                            }
+                            "WRONG_ANSWER"
+                        }
+                    }
+                };
+                obs.label(format!("fault:{}:{}", kind, outcome));
+                obs.label(format!("shape:{}:{}", shape, outcome));
+                if inst.carried_rows {
+                    obs.label("instance_on_shard_with_rows");
+                    obs.nontrivial(true);
+                } else {
+                    obs.label("instance_on_rowless_shard");
+                }
+            }
+        }
+        obs.sample(serde_json::json!({"statements": c.statements.iter().map(|q| q.sql()).collect::<Vec<_>>(), "instances": instances, "nodes": c.cluster.nodes}));
+        if let Some(m) = unknown {
+            return Verdict::Fail(format!("{} unclassified (+{} known-class) wrong answers among {} fault instances; first:\n{}", n_unknown, n_known, instances, m));
+        }
+        for id in ["ipc-truncation-at-message-boundary", "fragment-payload-corruption-undetected"] {
+            if let Some(m) = known_by.remove(id) {
+                if known.is_none() || id == "fragment-payload-corruption-undetected" && known.as_ref().map(|k| k.0 != "ipc-corrupt-length-aborts-process").unwrap_or(true) {
+                    known = Some((id.to_string(), m));
+                }
+            }
+        }
+        if let Some((id, m)) = known {
+            return Verdict::Known { id, msg: format!("{} wrong answers among {} fault instances; first:\n{}", n_known, instances, m) };
+        }
+        Verdict::Pass
+    }
+}
 
 pub fn property() -> Property {
-    Property { id: "C10", level: "exploration", assumptions: &[], checks: vec![] }
+    Property {
+        id: "C10",
+        level: "fault_enumeration",
+        assumptions: &[
+            "faults are injected at the FragmentTransport seam, which models the HTTP exchange of HttpTransport::send / POST /fragment byte for byte (status, x-qe-rows, body) without a socket",
+            "truncation is enumerated at every Arrow IPC message boundary of the real reply (independent framing walk) and sampled inside messages; corruption offsets are sampled",
+            "an Ok answer equal (as a multiset) to the fault-free answer is accepted (the fault was semantically masked); a panic is recorded, not judged here (C29)",
+        ],
+        checks: vec![Box::new(FaultEnumeration), Box::new(DecodeProbe)],
+    }
 }
